@@ -607,7 +607,7 @@ func (x *Exec) applyContract(e *ast.CallExpr, st *State, fn *types.Func, c *Cont
 	ctx := &cctx{x: x, st: st, old: pre, env: env, callee: c}
 	for _, l := range c.Lets {
 		r := ctx.with(l.C).eval(l.C.Expr)
-		env[l.Name] = cbind{r.v, r.t}
+		env[l.Name] = cbind{x.nameLet(st, l.Name, r.v), r.t}
 	}
 	callName := x.site("pre@"+c.Short, e)
 	for _, r := range c.Requires {
